@@ -21,8 +21,11 @@ TABLE = {
 OPEN_VARIANTS = {'CreateAsk', 'CreateBid'}   # anyone may place an order (admission is C07)
 
 def msg_variants(eng):
+    # the request type is the last parameter of the `execute` entry point (its Rust name is irrelevant)
+    sig = eng.s['roots'].get('execute', {}).get('sig') or {}
+    ty = (sig.get('inputs') or [None])[-1]
     for a in eng.s['adts']:
-        if a['def'].endswith('msg::ExecuteMsg'): return [v['name'] for v in a['variants']]
+        if a['def'] == ty: return [v['name'] for v in a['variants']]
     return None
 
 def run(eng, tier):
